@@ -132,7 +132,7 @@ static void run_basic(void)
 
 /* ---- cfg 17: the same uploads after an earlier transfer the client abandoned (client abort after k requests) or completed ---- */
 static uint8_t PAY2[16], UP2[SDO_DS2 + 32];
-static const char *const PRE_NAME[] = { "none", "segmented download to 2011h", "block download to 2011h", "segmented upload", "block upload (block size 3)" };
+static const char *const PRE_NAME[] = { "none", "segmented download to 2011h", "block download to 2011h", "segmented upload", "block upload (block size 3)", "one-segment download to 2011h" };
 static void history_case(int kind, uint32_t S, int content, int mode, int bs, int pk, int pkk, int k0)
 {
     char what[200], smp[240]; uint32_t len = 0, ann = 0; int r, oi = kind ? O_STRV : O_DOMB; uint16_t idx = kind ? 0x2023 : 0x2012;
@@ -143,6 +143,7 @@ static void history_case(int kind, uint32_t S, int content, int mode, int bs, in
     if (pk == 1) (void)cl_seg_dl(0, 0x2011, 0, PAY2, 10, 1);
     else if (pk == 2) (void)cl_blk_dl(0, 0x2011, 0, PAY2, 10, 1, 0, 0);
     else if (pk == 3) (void)cl_upload(0, idx, 0, UP2, sizeof UP2, &len, &ann);
+    else if (pk == 5) (void)cl_seg_dl(0, 0x2011, 0, PAY2, 5, 1);          /* an odd number of segments: the toggle bit the transfer leaves behind */
     else (void)cl_blk_ul(0, idx, 0, 3, UP2, sizeof UP2, &len, &ann, 0, 0, 0, 0);
     cl_budget = -1;
     if (cl_stopped) cl_client_abort(0);
@@ -164,7 +165,7 @@ static void run_history(int tier)
     static const int qs[] = { 1, 4, 5, 7, 8, 14, 15, 22, 50, 64, 890 };
     static const int bsl[] = { 1, 2, 3, 7, 127 };
     int kmax = tier ? 7 : 4;
-    for (int pk = 1; pk <= 4; pk++) for (int pkk = -1; pkk <= kmax; pkk++) {
+    for (int pk = 1; pk <= 5; pk++) for (int pkk = -1; pkk <= kmax; pkk++) {
         if (pkk == 0) continue;
         for (int kind = 0; kind < 2; kind++) for (unsigned si = 0; si < (tier ? (unsigned)n_all : sizeof qs / sizeof qs[0]) && !mc_deadline_hit(); si++) {
             uint32_t S = (uint32_t)(tier ? all_sizes[si] : qs[si]);
